@@ -129,7 +129,8 @@ def build(deco, binding, bk, explicit=True):
     if binding == "BFunc":
         cell.target = attr
         return cell
-    C = type("C", (object,), {"m": attr})
+    # instances are falsy on purpose (an empty container class): binding must test `is None`, not truthiness
+    C = type("C", (object,), {"m": attr, "__len__": lambda self: 0})
     Sub = type("Sub", (C,), {})
     obj, subobj = C(), Sub()
     cell.keep = (C, Sub, obj, subobj)
